@@ -11,7 +11,11 @@
 
 namespace refmg
 {
-  typedef mpq_class S;
+  // S_ = mpq_class (exact) or double
+  template<typename S_>
+  struct T
+  {
+  typedef S_ S;
   typedef std::vector<S> Vec;
   typedef std::vector<Vec> Mat; // rows
 
@@ -24,19 +28,20 @@ namespace refmg
     Mat s[4]; // pre, post, peak, coarse
   };
 
-  inline Vec mv(const Mat& m, const Vec& x)
+  static Vec mv(const Mat& m, const Vec& x)
   {
     Vec r(m.size());
     for(std::size_t i = 0; i < m.size(); ++i) { S a(0); for(std::size_t j = 0; j < x.size(); ++j) a += m[i][j] * x[j]; r[i] = a; }
     return r;
   }
-  inline S ip(const Vec& a, const Vec& b) { S r(0); for(std::size_t i = 0; i < a.size(); ++i) r += a[i] * b[i]; return r; }
+  static S ip(const Vec& a, const Vec& b) { S r(0); for(std::size_t i = 0; i < a.size(); ++i) r += a[i] * b[i]; return r; }
 
   struct Ref
   {
     const std::vector<Level>& lv; int cgc; std::size_t crs;
+    mutable std::vector<S> omegas; // adaptive step lengths in order of occurrence (diagnostics)
     Ref(const std::vector<Level>& l, int c, std::size_t cr) : lv(l), cgc(c), crs(cr) {}
-    Vec F(std::size_t l, Vec v) const { for(auto i : lv[l].fidx) if(i < v.size()) v[i] = 0; return v; }
+    Vec F(std::size_t l, Vec v) const { for(auto i : lv[l].fidx) if(i < v.size()) v[i] = S(0); return v; }
     Vec res(std::size_t l, const Vec& b, const Vec& x) const
     {
       Vec ax = mv(lv[l].A, x), r(b.size());
@@ -62,6 +67,7 @@ namespace refmg
         Vec t = F(l, mv(lv[l].A, c));
         S den = (cgc == 1) ? ip(t, c) : ip(t, t);
         if(den != 0) om = ((cgc == 1) ? ip(d, c) : ip(d, t)) / den;
+        omegas.push_back(om);
       }
       for(std::size_t i = 0; i < x.size(); ++i) x[i] += om * c[i];
       return x;
@@ -88,4 +94,12 @@ namespace refmg
       return x;
     }
   };
+  }; // struct T
+
+  // the exact instance used by the `mgx` ops
+  typedef T<mpq_class>::S S;
+  typedef T<mpq_class>::Vec Vec;
+  typedef T<mpq_class>::Mat Mat;
+  typedef T<mpq_class>::Level Level;
+  typedef T<mpq_class>::Ref Ref;
 }
